@@ -2,6 +2,7 @@ package vh
 
 import (
 	"bufio"
+	"bytes"
 	"fmt"
 	"io"
 	"os"
@@ -39,6 +40,24 @@ type FileRunner struct {
 	df      *datafile.DataFile
 	Verbose bool
 	poss    [][2]uint32 // positions returned by writes so far
+	// property oracle (C11): what was written, to be compared with what is read back
+	written []writtenRec
+	staged  []writtenRec
+	damaged bool
+	Oracle  []string
+	lastLog int64
+}
+
+type writtenRec struct {
+	typ      byte
+	key, val []byte
+	batch    uint64
+	bid, off uint32
+	size     uint32
+}
+
+func (r *FileRunner) fail(format string, a ...interface{}) {
+	r.Oracle = append(r.Oracle, fmt.Sprintf(format, a...))
 }
 
 func (r *FileRunner) path() string { return datafile.GetFileName(r.Dir, r.fid, r.suffix) }
@@ -85,7 +104,7 @@ func (r *FileRunner) Exec(f []string) (res string) {
 		if len(f) > 4 && f[4] == "hint" {
 			r.suffix = datafile.HintFileSuffix
 		}
-		r.poss = nil
+		r.poss, r.written, r.staged, r.damaged = nil, nil, nil, false
 		_ = os.Remove(r.path())
 		if err := r.reopen(); err != nil {
 			return "err " + ErrName(err)
@@ -100,6 +119,7 @@ func (r *FileRunner) Exec(f []string) (res string) {
 			return "err " + ErrName(err)
 		}
 		r.poss = append(r.poss, [2]uint32{p.BlockID, p.Offset})
+		r.written = append(r.written, writtenRec{rec.Type, k, v, rec.BatchID, p.BlockID, p.Offset, p.Size})
 		return fmt.Sprintf("%d %d %d", p.BlockID, p.Offset, p.Size)
 	case "hint":
 		k, _ := ParseTok(f[2])
@@ -113,6 +133,7 @@ func (r *FileRunner) Exec(f []string) (res string) {
 		v, _ := ParseTok(f[4])
 		rec := &datafile.LogRecord{Type: byte(atoi(f[2])), Key: k, Value: v, BatchID: atou(f[5])}
 		r.df.WriteStagedLogRecord(rec, make([]byte, datafile.MaxLogRecordHeaderSize))
+		r.staged = append(r.staged, writtenRec{typ: rec.Type, key: k, val: v, batch: rec.BatchID})
 		return ""
 	case "flush":
 		ps, err := r.df.FlushStaged()
@@ -121,18 +142,31 @@ func (r *FileRunner) Exec(f []string) (res string) {
 		}
 		var sb strings.Builder
 		fmt.Fprintf(&sb, "%d", len(ps))
-		for _, p := range ps {
+		if len(ps) != len(r.staged) {
+			r.fail("flush returned %d positions for %d staged records", len(ps), len(r.staged))
+		}
+		for i, p := range ps {
 			fmt.Fprintf(&sb, " %d %d %d", p.BlockID, p.Offset, p.Size)
 			r.poss = append(r.poss, [2]uint32{p.BlockID, p.Offset})
+			if i < len(r.staged) {
+				w := r.staged[i]
+				w.bid, w.off, w.size = p.BlockID, p.Offset, p.Size
+				r.written = append(r.written, w)
+			}
 		}
+		r.staged = nil
 		return sb.String()
 	case "size":
 		return fmt.Sprintf("%d", r.df.Size())
 	case "close":
+		logical := r.df.Size()
 		r.Close()
 		st, err := os.Stat(r.path())
 		if err != nil {
 			return "err stat"
+		}
+		if st.Size() != logical {
+			r.fail("logical size %d != physical size %d after Close", logical, st.Size())
 		}
 		return fmt.Sprintf("%d", st.Size())
 	case "reopen":
@@ -166,6 +200,14 @@ func (r *FileRunner) Exec(f []string) (res string) {
 					break
 				}
 				sb.WriteString(recCanon(rec, p))
+				if !r.damaged && r.suffix == datafile.DataFileSuffix {
+					if n >= len(r.written) {
+						r.fail("scan returned more records than were written (%d)", len(r.written))
+					} else if w := r.written[n]; w.typ != rec.Type || !bytes.Equal(w.key, rec.Key) || !bytes.Equal(w.val, rec.Value) ||
+						w.batch != rec.BatchID || w.bid != p.BlockID || w.off != p.Offset || w.size != p.Size || p.Fid != r.fid {
+						r.fail("scan record %d differs from what was written at (%d,%d,%d): got (%d,%d,%d) keylen %d vallen %d", n, w.bid, w.off, w.size, p.BlockID, p.Offset, p.Size, len(rec.Key), len(rec.Value))
+					}
+				}
 			} else {
 				k, p, err := rd.NextHintRecord()
 				if err != nil {
@@ -180,6 +222,13 @@ func (r *FileRunner) Exec(f []string) (res string) {
 				break
 			}
 		}
+		if !r.damaged && f[1] == "scan" && r.suffix == datafile.DataFileSuffix && len(r.staged) == 0 {
+			if end != "eof" {
+				r.fail("scan of an undamaged file ended with %s after %d records", end, n)
+			} else if n != len(r.written) {
+				r.fail("scan returned %d records, %d were written", n, len(r.written))
+			}
+		}
 		out := fmt.Sprintf("%s %d %s", end, n, Md5Hex([]byte(sb.String())))
 		if r.Verbose {
 			out += " # " + sb.String()
@@ -188,11 +237,23 @@ func (r *FileRunner) Exec(f []string) (res string) {
 	case "get":
 		p := &datafile.DataPos{Fid: r.fid, BlockID: uint32(atou(f[2])), Offset: uint32(atou(f[3]))}
 		v, err := r.df.ReadRecordValue(p)
+		if !r.damaged {
+			for _, w := range r.written {
+				if w.bid == p.BlockID && w.off == p.Offset {
+					if err != nil {
+						r.fail("random read at written position (%d,%d) failed: %v", w.bid, w.off, err)
+					} else if !bytes.Equal(v, w.val) {
+						r.fail("random read at (%d,%d) returned %d bytes that differ from the %d written", w.bid, w.off, len(v), len(w.val))
+					}
+				}
+			}
+		}
 		if err != nil {
 			return "err " + ErrName(err)
 		}
 		return "ok " + Obs(v)
 	case "load":
+		r.damaged = true
 		b, _ := ParseTok(f[2])
 		r.Close()
 		if err := os.WriteFile(r.path(), b, 0644); err != nil {
@@ -203,6 +264,7 @@ func (r *FileRunner) Exec(f []string) (res string) {
 		}
 		return fmt.Sprintf("%d", r.df.Size())
 	case "flip":
+		r.damaged = true
 		off, mask := atoi(f[2]), atoi(f[3])
 		r.Close()
 		b, err := os.ReadFile(r.path())
@@ -216,6 +278,7 @@ func (r *FileRunner) Exec(f []string) (res string) {
 		}
 		return fmt.Sprintf("%d", r.df.Size())
 	case "trunc":
+		r.damaged = true
 		r.Close()
 		if err := os.Truncate(r.path(), int64(atoi(f[2]))); err != nil {
 			return "err trunc"
@@ -237,12 +300,24 @@ func RunFileScript(lines []string, w *bufio.Writer, verbose bool) error {
 	defer os.RemoveAll(dir)
 	r := &FileRunner{Dir: filepath.Join(dir), Verbose: verbose}
 	defer r.Close()
+	scen := "?"
+	emit := func() {
+		for _, o := range r.Oracle {
+			fmt.Fprintf(w, "X C11 scenario=%s %s\n", scen, o)
+		}
+		r.Oracle = nil
+	}
+	defer emit()
 	for _, ln := range lines {
 		f := strings.Fields(ln)
+		if len(f) >= 2 && f[0] == "S" {
+			scen = f[1]
+		}
 		if len(f) < 2 || f[0] != "F" {
 			fmt.Fprintln(w, ln)
 			continue
 		}
+		emit()
 		if f[1] == "getall" {
 			for _, p := range r.poss {
 				g := fmt.Sprintf("F get %d %d", p[0], p[1])
